@@ -21,6 +21,7 @@
 #include <vector>
 
 #include "../tracked.h"
+#include "../iter_script.h"
 
 namespace verif {
 struct HeapLog {
@@ -249,6 +250,13 @@ static std::string run(const std::vector<std::string> &t) {
         bool same = f == c && fw == bw && fw == cw;
         std::string r = same ? f : "l=iteration-mismatch";
         return op == "peek" ? (reg().delta(), reg().error.clear(), r) : finish(r);
+    }
+    if (op == "it") {
+        const Arr &ca = a;
+        auto val = [](const Elem &e) { return valueOf(e); };
+        std::string r = (num(2) & 1) ? verif::iterScript([&] { return ca.cbegin(); }, val, t, 2)
+                                     : verif::iterScript([&] { return a.begin(); }, val, t, 2);
+        return finish(r);
     }
     if (op == "len") {
         bool ok = a.empty() == (a.size() == 0) && (size_t) std::distance(a.begin(), a.end()) == a.size()
